@@ -78,7 +78,56 @@ def run(rep):
         raise tlc.TLCError("self-test failed: DfSettings='shuffled' (defect F2) not rejected by RowPairing")
     rep.note("self-test: DfSettings='shuffled' (pinned code, F2) violates RowPairing in TLC, as expected")
     sweep.drive(rep, runs(rep.tier), "C03", n_variants=1 if rep.tier == "quick" else 6)
+    real_pool_datasets(rep)
+
+
+def _pool_fn(a, b):
+    return float(100 * a + b), [float(a), float(b)]
+
+
+def real_pool_datasets(rep):
+    """The built-in process pool (num_workers=2, real loky workers, real completion order) on sweeps with more settings
+    than 4 x workers: the labelled Dataset / DataFrame must be the one Sweep.tla's Place action dictates - every grid
+    point holds the value of its own setting (here: computed from the labels themselves)."""
+    import contextlib
+    import io
+    import numpy as np
+    from .. import common
+    xyz = common.use_repo()
+    from xyzpy.gen import combo_runner as cr
+    for t, (na, nb_, shuffle) in enumerate([(3, 3, False), (5, 3, 7)]):
+        combos = {"a": list(range(1, na + 1)), "b": [3, 1, 2][:nb_]}
+        case = dict(kind="real_pool_ds", na=na, nb=nb_, shuffle=shuffle)
+        rep.add_case(["real_pool_ds", na, nb_, shuffle], sample=None)
+        prob = None
+        ds = None
+        try:
+            with contextlib.redirect_stdout(io.StringIO()), contextlib.redirect_stderr(io.StringIO()):
+                ds = cr.combo_runner_to_ds(_pool_fn, combos, ["x", "v"], var_dims={"v": ["t"]}, var_coords={"t": [0, 1]},
+                                           num_workers=2, shuffle=shuffle, verbosity=0)
+        except Exception as e:  # noqa
+            prob = "raised %s: %s" % (type(e).__name__, str(e)[:200])
+        if prob:
+            pass
+        elif list(ds["a"].values) != combos["a"] or list(ds["b"].values) != combos["b"]:
+            prob = "coordinates a=%r b=%r, expected %r / %r" % (list(ds["a"].values), list(ds["b"].values), combos["a"], combos["b"])
+        else:
+            for a in combos["a"]:
+                for b in combos["b"]:
+                    x = ds["x"].sel(a=a, b=b).values
+                    v = ds["v"].sel(a=a, b=b).values
+                    if not (x == 100 * a + b) or list(np.asarray(v, dtype=float)) != [float(a), float(b)]:
+                        prob = "ds.sel(a=%d, b=%d): x=%r v=%r, the function returned %r" % (a, b, x, v, _pool_fn(a, b))
+                        break
+                if prob:
+                    break
+        if prob:
+            rep.add_violation(case, "combo_runner_to_ds(..., num_workers=2%s) over %d settings: %s" % (
+                ", shuffle=%r" % shuffle if shuffle else "", na * nb_, prob), key=dict(tag="real_pool_ds"))
 
 
 def replay(rep, saved):
+    if saved.get("kind") == "real_pool_ds":
+        real_pool_datasets(rep)
+        return
     sweep.replay_saved(rep, saved)
